@@ -65,6 +65,9 @@ TSearch ==
                     key == <<qs, Ev.k, Ev.thr, filt, Ev.p, Ev.agg, Ev.thrid>>   \* (two thresholds with the same fixed-point rendering need not be the same float)
                 IN /\ Holds(IF Len(qs) = 1 THEN SearchOK(Ev.res, qs[1], Ev.k, Ev.thr, filt, Ev.p)
                                            ELSE MultiOK(Ev.res, qs, Ev.k, Ev.thr, filt, Ev.agg))
+                   \* the same builder executed once more answers the same question (its own state does not leak into the next run)
+                   /\ (Ev.re => Holds(IF Len(qs) = 1 THEN SearchOK(Ev.res2, qs[1], Ev.k, Ev.thr, filt, Ev.p)
+                                                     ELSE MultiOK(Ev.res2, qs, Ev.k, Ev.thr, filt, Ev.agg)))
                    \* a threshold taken from a score the index itself reported for document thrid admits that document: the same
                    \* computation gives the same float (no tie band here; exhaustive kinds, every cluster probed, no truncation)
                    /\ (Ev.thrid # 0 /\ Kind # "hnsw" /\ Ev.k <= 0 /\ (~Clustered \/ Probes(Ev.p) = NList) /\ (filt = {} \/ Ev.thrid \in filt))
